@@ -30,6 +30,7 @@ def BExpr.size : BExpr → Nat
   | .land a b => a.size + b.size
   | .lor a b => a.size + b.size
 
+mutual
 def Stmt.size : Stmt → Nat
   | .skip => 1
   | .seq a b => a.size + b.size
@@ -39,6 +40,17 @@ def Stmt.size : Stmt → Nat
   | .loop c body post => c.size + body.size + post.size
   | .brk => 1
   | .cont => 1
+  | .switch cs => cs.size
+def Clauses.size : Clauses → Nat
+  | .nil => 1
+  | .cons c body _ rest => c.size + body.size + rest.size
+end
+
+/-- where the body of the first clause starts when the clause list is placed at `base`
+    (the target of a `fallthrough` from the previous clause) -/
+def Clauses.bodyStart : Clauses → Nat → Nat
+  | .nil, base => base
+  | .cons c _ _ _, base => base + c.size
 
 /-- condition placed at `base`, leaving to `t` when true and to `f` when false -/
 def compileCond : BExpr → (base t f : Nat) → List Instr
@@ -47,6 +59,7 @@ def compileCond : BExpr → (base t f : Nat) → List Instr
   | .land a b, base, t, f => compileCond a base (base + a.size) f ++ compileCond b (base + a.size) t f
   | .lor a b, base, t, f => compileCond a base t (base + a.size) ++ compileCond b (base + a.size) t f
 
+mutual
 /-- statement placed at `base`; `next` = where control goes when it ends normally,
     `brk` / `cont` = targets of break / continue -/
 def compile : Stmt → (base next brk cont : Nat) → List Instr
@@ -65,6 +78,19 @@ def compile : Stmt → (base next brk cont : Nat) → List Instr
     compile post (base + c.size + body.size) base next (base + c.size + body.size)
   | .brk, _, _, brk, _ => [.nop brk]
   | .cont, _, _, _, cont => [.nop cont]
+  | .switch cs, base, next, _, cont => compileClauses cs base next cont
+
+/-- clause list placed at `base`: test, body, test, body, …, and a final jump to `next` taken when no
+    clause matches. A failed test goes to the next test, a body ends at the exit of the switch or —
+    after `fallthrough` — at the start of the next body; `break` inside a body leaves the switch. -/
+def compileClauses : Clauses → (base next cont : Nat) → List Instr
+  | .nil, _, next, _ => [.nop next]
+  | .cons c body fall rest, base, next, cont =>
+    compileCond c base (base + c.size) (base + c.size + body.size) ++
+    compile body (base + c.size)
+      (if fall then rest.bodyStart (base + c.size + body.size) else next) next cont ++
+    compileClauses rest (base + c.size + body.size) next cont
+end
 
 /-- state of the execution loop -/
 inductive MState where
